@@ -186,3 +186,19 @@ pub fn udivmod4(
         rem.write(r);
     }
 }
+
+/// Exact replacement of ethnum's divider core for the ONE divisor `which_power_of_2` uses (2): quotient is
+/// a logical shift right by one, remainder the lowest bit.  Any other divisor is a harness error.
+pub fn udivmod4_by_two(
+    res: &mut MaybeUninit<U256>,
+    a: &U256,
+    b: &U256,
+    rem: Option<&mut MaybeUninit<U256>>,
+) {
+    assert!(*b.high() == 0 && *b.low() == 2, "UDIVMOD4_SPECIALISED_FOR_TWO");
+    let (hi, lo) = (*a.high(), *a.low());
+    res.write(U256::from_words(hi >> 1, (lo >> 1) | (hi << 127)));
+    if let Some(rem) = rem {
+        rem.write(U256::from_words(0, lo & 1));
+    }
+}
